@@ -83,7 +83,8 @@ def proc_syscall(pid):
 
 class Scheduler:
     def __init__(self, workdir, sockpath, lockfile, visible, chooser, max_steps=4000, step_timeout=20.0, poll_at=None,
-                 kill_roots=(), max_kills=1):
+                 kill_roots=(), max_kills=1, env_player=None):
+        self.env_player = env_player         # environment player with choices() -> [label] and act(label) (the make parent)
         self.kill_roots = list(kill_roots)   # environment player "user": may SIGKILL the whole tree of these invocations
         self.kills_left = max_kills if kill_roots else 0
         self.poll_at = poll_at          # script-gate label prefix after which a pending log poll runs first by default
@@ -425,6 +426,8 @@ class Scheduler:
             if p.gate:
                 d = p.gate[1]
                 items.append((p.lid, p.gate[0], normalise_detail(d, self.procs)))
+        if self.env_player is not None:
+            items.append(("ENV", "make", self.env_player.state()))
         import hashlib
         return hashlib.md5(repr(sorted(items)).encode()).hexdigest()[:16]
 
@@ -451,8 +454,13 @@ class Scheduler:
                     if r["name"] in self.kill_roots and r["rc"] is None and any(
                             p.lid.startswith(r["name"] + ".") and not p.dead for p in self.procs.values()):
                         choices.append(("ENV", 0, "env", "kill:" + r["name"], ""))
+            if self.env_player is not None:
+                for lab in self.env_player.choices():
+                    choices.append(("ENV", 0, "env", lab, ""))
             if choices and all(c[2] == "env" for c in choices):
-                choices = []      # an environment action alone never hides a deadlock
+                # an environment action alone never hides a deadlock -- except an obligation of the environment
+                # itself: a make parent that holds a token always returns it eventually (forced, costs nothing)
+                choices = [c for c in choices if c[3].startswith("make-put")]
             if not choices and self.sleeping:
                 # everything else is blocked and a process busy-waits for the database: give it real time
                 t_end = time.monotonic() + 8.0
@@ -517,8 +525,12 @@ class Scheduler:
                 self.steps.append({"i": self.step_no, "enabled": [(c[0], c[2], c[3]) for c in choices], "chosen": idx,
                                    "default": default, "lid": lid, "kind": kind, "label": label, "detail": ""})
                 self.step_no += 1
-                self.kills_left -= 1
-                self.kill_tree(label.split(":", 1)[1])
+                if label.startswith("kill:"):
+                    self.kills_left -= 1
+                    self.kill_tree(label.split(":", 1)[1])
+                else:
+                    self.env_player.act(label)
+                    self.events.append((self.step_no - 1, "ENV", "make", label))
                 continue
             self.steps.append({"i": self.step_no, "enabled": [(c[0], c[2], c[3]) for c in choices], "chosen": idx,
                                "default": default, "lid": lid, "kind": kind, "label": label,
